@@ -44,7 +44,11 @@ func (*BytecodeCompiler).emit
   ensures ghostdef push1: (op == bytecode.NIL || op == bytecode.UNDEFINED || op == bytecode.TRUE || op == bytecode.FALSE || op == bytecode.SELF) ==> ghost(depth, c) == old(ghost(depth, c)) + 1
   ensures ghostdef pop1: (op == bytecode.POP || op == bytecode.JUMP_UNLESS || op == bytecode.JUMP_IF || op == bytecode.JUMP_UNLESS_NIL) ==> ghost(depth, c) == old(ghost(depth, c)) - 1
   ensures ghostdef peek: (op == bytecode.JUMP_UNLESS_NP || op == bytecode.JUMP_IF_NP || op == bytecode.JUMP_UNLESS_NNP) ==> ghost(depth, c) == old(ghost(depth, c))
-  ensures ghostdef live: ghost(dead, c) == old(ghost(dead, c))
+  ensures ghostdef cast: op == bytecode.AS ==> ghost(depth, c) == old(ghost(depth, c)) - 1
+  ensures ghostdef must: op == bytecode.MUST ==> ghost(depth, c) == old(ghost(depth, c))
+  // THROW never falls through; every other opcode leaves the fall-through path alive or dead as it was
+  ensures ghostdef thrown: op == bytecode.THROW ==> ghost(dead, c) == 1
+  ensures ghostdef live: op != bytecode.THROW ==> ghost(dead, c) == old(ghost(dead, c))
 
 func (*BytecodeCompiler).emitByte
   props C29 C32
@@ -85,7 +89,7 @@ func (*BytecodeCompiler).emitJump
   ensures last: c.lastOpCode == op
   ensures jpop: (op == bytecode.JUMP_UNLESS || op == bytecode.JUMP_IF || op == bytecode.JUMP_UNLESS_NIL) ==> ghost(depth, c) == old(ghost(depth, c)) - 1
   ensures jpeek: (op == bytecode.JUMP_UNLESS_NP || op == bytecode.JUMP_IF_NP || op == bytecode.JUMP_UNLESS_NNP) ==> ghost(depth, c) == old(ghost(depth, c))
-  ensures live: ghost(dead, c) == old(ghost(dead, c))
+  ensures live: op != bytecode.THROW ==> ghost(dead, c) == old(ghost(dead, c))
   // the depth on the path that takes the jump, remembered under the jump's operand offset until
   // the jump is patched (joins: verif_contracts_depth.go); the key pairs compiler and offset
   ensures ghostdef jrec: ghost(jdepth, jkey(c, ret)) == ghost(depth, c)
